@@ -180,6 +180,25 @@ def scenarios():
         steps = [call(c['id'], a) for c in scfgs] + [call(c['id'], a) for c in reversed(scfgs)]
         scen('same-stylesheet-abbreviation-across-configs/%s' % a, _w(scfgs), steps)
 
+    # 1c. completing the VALUE of a property between two property-level looks (one cache, and none)
+    for cache in ('k0', None):
+        for prop_name in sorted(ga.VALUE_CONTEXTS):
+            values, probes = ga.VALUE_CONTEXTS[prop_name]
+            plain = {'id': 'c0', 'holder': 'dict', 'type': 'stylesheet', 'snippets': STYLE_SN}
+            ctx = {'id': 'c1', 'holder': 'dict', 'type': 'stylesheet', 'snippets': STYLE_SN, 'context': {'name': prop_name}}
+            held = {'id': 'c2', 'holder': 'Config', 'type': 'stylesheet', 'snippets': STYLE_SN}
+            if cache:
+                for c in (plain, ctx, held):
+                    c['cache'] = cache
+            steps = [call('c0', probes[0])]
+            for v in values:
+                steps.append(call('c1', v))
+            for pr in probes:
+                steps.append(call('c0', pr))
+                steps.append(call('c2', pr))
+            steps.append(call('c1', values[0]))
+            scen('value-context/%s/%s' % (prop_name, cache), _w([plain, ctx, held], caches=['k0'] if cache else []), steps)
+
     # 2. host edits between two looks
     def edit(cfg, path, value=None, inplace=True, delete=False):
         op = {'op': 'edit_cfg', 'cfg': cfg, 'path': path, 'inplace': inplace}
